@@ -12,7 +12,7 @@ SPEC = {
     'deductive': [
         ('K-next(delayed inherited)', 'next', '^fields:delayed')],
     'bounded': [
-        ('incremental-vs-one-shot', suites.case_C08, 400, 8000, RULE + '; ' + 'non-trivial = first cut inside the matched prefix; 1-2 cuts', '')],
+        ('incremental-vs-one-shot', suites.case_C08, 1500, 25000, RULE + '; ' + 'non-trivial = first cut inside the matched prefix; 1-2 cuts', '')],
 }
 
 
